@@ -1,5 +1,5 @@
 (* C11: the suffix store matches and decodes exactly the suffix registered at a position. *)
-From X Require Import Base Arr BitVector Tail Spec Iface IfaceDac All.
+From X Require Import Base Arr BitVector Tail Spec Iface IfaceDac All AccessLib AccessGen AllAccessTrie.
 Local Open Scope N_scope.
 
 Theorem C11_suffix_store : forall bin (sufs : list suffix),
@@ -20,9 +20,33 @@ Theorem C11_suffix_store : forall bin (sufs : list suffix),
           t_prefix_match T q tpos = Ok (if is_prefixb s q then Some (lenN s) else None).
 Proof. exact tail_thm. Qed.
 
+(* the same for match / prefix_match / decode as REGENERATED FROM tail_vector.hpp on every run (the tvg_ functions of AccessGen.v) *)
+Theorem C11_source_suffix_store : forall bin (sufs : list suffix),
+  Forall (fun sn => suf_ok bin (fst sn)) sufs -> NoDup (map snd sufs) ->
+  fold_right (fun sn acc => lenN (fst sn) + 1 + acc) 1 sufs < 2^60 ->
+  exists T asg, tail_complete bin sufs = Ok (T, asg) /\
+    tvg_bin_mode T = bin /\ 1 <= tvg_size T /\
+    (forall q, Forall (fun b => b < 256) q -> lenN q < 2^64 ->
+       tvg_match T q 0 = Ok (match q with [] => true | _ => false end) /\
+       tvg_prefix_match T q 0 = Ok (Some 0)) /\
+    tvg_decode T 0 = Ok [] /\
+    forall s npos, In (s, npos) sufs ->
+      exists tpos, In (npos, tpos) asg /\ tpos <> 0 /\ tpos < tvg_size T /\
+        (forall tpos', In (npos, tpos') asg -> tpos' = tpos) /\
+        tvg_decode T tpos = Ok s /\
+        forall q, Forall (fun b => b < 256) q -> lenN q < 2^64 ->
+          tvg_match T q tpos = Ok (key_eqb q s) /\
+          tvg_prefix_match T q tpos = Ok (if is_prefixb s q then Some (lenN s) else None).
+Proof. exact src_tail. Qed.
+Example C11_source_example : match tail_complete true [([120; 121; 122], 5); ([113], 6); ([121; 122], 7)] with
+  | Ok (T, asg) => tvg_match T [0; 120; 121; 122] 0 = Ok false /\ tvg_match T [120; 121; 122] 1 = Ok true /\
+                   tvg_prefix_match T [121; 122; 9] 2 = Ok (Some 2) /\ tvg_decode T 4 = Ok [113]
+  | _ => False end.
+Proof. vm_compute. repeat split; reflexivity. Qed.
+
 Example C11_example : match tail_complete true [([120; 121; 122], 5); ([113], 6); ([121; 122], 7)] with
   | Ok (T, asg) => t_match T [0; 120; 121; 122] 0 = Ok false /\ map snd asg = [1; 2; 4]
   | _ => False end.
 Proof. vm_compute. split; reflexivity. Qed.
 
-Print Assumptions C11_suffix_store.
+Print Assumptions C11_suffix_store. Print Assumptions C11_source_suffix_store.
